@@ -345,8 +345,9 @@ class IntegralGenerator:
                     if vdef:
                         assert isinstance(vdef, L.Section)
                     # Only add if definition is unique.
-                    # This can happen when using sub-meshes
-                    if vdef not in definitions:
+                    # This can happen when using sub-meshes.
+                    # (A terminal that is read directly needs no definition.)
+                    if vdef and vdef not in definitions:
                         definitions += [vdef]
                 else:
                     # Get previously visited operands
